@@ -25,6 +25,21 @@ one rebind together with whole arguments), late binding while change
 notification is off, and families of callables that share one code object (or
 are one object) and differ only in what lives on the function object
 (`__defaults__`, `__kwdefaults__`, closure).
+
+Indirect argument values (`drv_indirect_argument_values`): an argument bound as
+`pg.Ref(v)` *is* v (the very object; pyglove's documentation of `pg.Ref`:
+reading the attribute gives the referenced value, no copy, no conversion), an
+argument bound as `pg.symbolic.ValueFromParentChain()` is the value of the
+same name in the enclosing symbolic tree, an argument that is a symbolic value
+(pg.Dict / pg.Object, possibly already owned by another tree) is that value or
+an equal copy.  These are the *effective* arguments the statement speaks of
+(they are what the symbolic object reports): the original callable is called
+with them directly and must see what the symbolic form sees, for every slot an
+argument can sit in (named, element of *args, entry of **kw), however it was
+bound (construction, rebind / attribute assignment later, the rest supplied at
+call time) and on clones.  A `pg.Ref` given at *call time* is not judged (the
+direct call with the same object receives the wrapper, too), nor is JSON of a
+`pg.Ref` (refused by design).
 """
 import copy
 import inspect
@@ -192,6 +207,11 @@ CLS_WRAPPERS = {
     'pg.wrap(spec)': 'pg.wrap({f}, {spec})',
     'pg.wrap(auto_typing)': 'pg.wrap({f}, auto_typing=True)',
 }
+# Wrappers used only by drv_indirect_argument_values (kept out of the rotations of the other
+# drivers): every named parameter and every extra keyword is declared int-or-symbolic-value.
+EXTRA_FN_WRAPPERS = {'pg.functor(union-spec)': 'pg.functor({uspec})({f})'}
+# 'subclass-of-pg.wrap': class S(pg.wrap(C)) whose own __init__ (same parameters) forwards to super().
+EXTRA_CLS_WRAPPERS = {'pg.wrap(union-spec)': 'pg.wrap({f}, {uspec})', 'subclass-of-pg.wrap': None}
 FUNCTOR_KINDS = list(FN_WRAPPERS) + list(SUBCLASS_KINDS)
 UNTYPED_FUNCTOR_KINDS = ['pg.functor', 'pg.symbolize', 'functor_class', 'subclass(annotations)',
                          'subclass(pg.members)']
@@ -230,6 +250,19 @@ def spec_src(sig):
   return '[' + ', '.join(items) + ']'
 
 
+def union_spec_src(sig):
+  vs = ('pg.typing.Union([pg.typing.Int(), pg.typing.Object(pg.Object), pg.typing.Dict(), '
+        'pg.typing.List(pg.typing.Any())])')
+  items = [f"('{nm}', {vs})" for nm in sig.names]
+  if sig.vk:
+    items.append(f'(pg.typing.StrKey(), {vs})')
+  return '[' + ', '.join(items) + ']'
+
+
+def is_class_kind(kind):
+  return kind in CLS_WRAPPERS or kind in EXTRA_CLS_WRAPPERS
+
+
 _BUILT = {}
 
 
@@ -243,7 +276,7 @@ def build(sig, kind):
   key = (sig.id, kind)
   if key in _BUILT:
     return _BUILT[key]
-  is_cls = kind in CLS_WRAPPERS
+  is_cls = is_class_kind(kind)
   tag = ''.join(ch for ch in kind if ch.isalnum())
   name = ('C_' if is_cls else 'f_') + sig.id.replace('~', '_') + '_' + tag
   head = ('import pyglove as pg, sys, types, typing\n'
@@ -255,10 +288,18 @@ def build(sig, kind):
     prelude = (head + f'exec({sig.fn_src(name)!r}, ns_)\nF = ns_[{name!r}]\n'
                f'exec({src2!r}, ns_)\n'
                f'W = ns_[{wname!r}]; m_.__dict__[{wname!r}] = W\n')
+  elif kind == 'subclass-of-pg.wrap':
+    fwd = ', '.join(sig.pos + (['*args'] if sig.va else []) + [f'{nm}={nm}' for nm in sig.kwonly]
+                    + (['**kw'] if sig.vk else []))
+    sub = f'class S{name}(W0_):\n  def __init__(self, {sig.params}):\n    super().__init__({fwd})\n'
+    prelude = (head + f'exec({sig.cls_src(name)!r}, ns_)\n'
+               f'F = ns_[{name!r}]; m_.__dict__[{name!r}] = F\n'
+               f"ns_['W0_'] = pg.wrap(F)\nexec({sub!r}, ns_)\n"
+               f"W = ns_['S{name}']; m_.__dict__['S{name}'] = W\n")
   else:
     src = sig.cls_src(name) if is_cls else sig.fn_src(name)
-    tmpl = (CLS_WRAPPERS if is_cls else FN_WRAPPERS)[kind]
-    wsrc = tmpl.format(f=name, spec=spec_src(sig))
+    tmpl = {**FN_WRAPPERS, **CLS_WRAPPERS, **EXTRA_FN_WRAPPERS, **EXTRA_CLS_WRAPPERS}[kind]
+    wsrc = tmpl.format(f=name, spec=spec_src(sig), uspec=union_spec_src(sig))
     prelude = (head + f'exec({src!r}, ns_)\n'
                f'F = ns_[{name!r}]; m_.__dict__[{name!r}] = F\n'
                f"W = eval({wsrc!r}, ns_)\n")
@@ -585,7 +626,7 @@ def _check_signature(rec, sig, kind, f, w, prelude, case_id=None):
 
 
 def _family(kind):
-  if kind in CLS_WRAPPERS:
+  if is_class_kind(kind):
     return 'class-wrapper'
   return 'subclassed-functor' if kind in SUBCLASS_KINDS else 'functor'
 
@@ -1939,9 +1980,309 @@ def drv_callables_sharing_code(tier, seed):
   return rec.result()
 
 
+# ---------------------------------------------------------------------------
+# Indirect argument values: references, values inferred from the enclosing
+# tree, symbolic values (see the module docstring for the reading of
+# "effective argument").
+# ---------------------------------------------------------------------------
+
+@pg.members([('v', pg.typing.Any(default=0))])
+class RefTarget(pg.Object):
+  """A symbolic object used as a (referenced) argument value."""
+
+
+_PARENT_VALUE = '<value of the same name in the parent>'
+# name -> (group, source defining T, how the argument is written for the symbolic form, the
+#          effective argument, whether the effective argument has to be the very object T).
+INDIRECT_VALUES = {
+    'ref:pg.Dict': ('reference', 'T = pg.Dict(w=4)', 'pg.Ref(T)', 'T', True),
+    'ref:pg.List': ('reference', 'T = pg.List([1, 2])', 'pg.Ref(T)', 'T', True),
+    'ref:pg.Object': ('reference', 'T = m.RefTarget(3)', 'pg.Ref(T)', 'T', True),
+    'ref:node-owned-by-another-tree': ('reference', 'P_ = pg.Dict(c=pg.Dict(w=4)); T = P_.c',
+                                       'pg.Ref(T)', 'T', True),
+    'ref:functor-object': ('reference', 'T = pg.functor(lambda q=1: q)(2)', 'pg.Ref(T)', 'T', True),
+    'ref:plain-dict': ('reference', "T = {'w': 4}", 'pg.Ref(T)', 'T', True),
+    'ref:plain-list': ('reference', 'T = [1, 2]', 'pg.Ref(T)', 'T', True),
+    'ref-inside-dict': ('reference-inside-container', 'T = pg.Dict(w=4)', "{'cfg': pg.Ref(T), 'n': 1}",
+                        "{'cfg': T, 'n': 1}", True),
+    'ref-inside-list': ('reference-inside-container', 'T = m.RefTarget(3)', '[pg.Ref(T), 1]', '[T, 1]', True),
+    'value:pg.Dict': ('symbolic-value', 'T = pg.Dict(w=4, u=[1])', 'T', 'T', False),
+    'value:pg.Object': ('symbolic-value', 'T = m.RefTarget([3])', 'T', 'T', False),
+    'value:node-owned-by-another-tree': ('symbolic-value', 'P_ = pg.Dict(c=m.RefTarget(5)); T = P_.c',
+                                         'T', 'T', False),
+    'inferred:from-parent': ('inferred-from-parent', 'T = None', 'pg.symbolic.ValueFromParentChain()',
+                             _PARENT_VALUE, False),
+}
+IND_FN_KINDS = ['pg.functor', 'pg.symbolize', 'functor_class', 'subclass(annotations)',
+                'subclass(pg.members)', 'pg.functor(union-spec)']
+IND_CLS_KINDS = ['pg.wrap', 'pg.symbolize(class)', 'pg.wrap(union-spec)', 'subclass-of-pg.wrap']
+
+
+def same_eff(w, g, shared=()):
+  """g is the effective argument w: the very object for members of `shared`, else an equal value."""
+  if any(w is t for t in shared):
+    return g is w
+  if isinstance(w, tuple):
+    return isinstance(g, tuple) and len(w) == len(g) and all(same_eff(x, y, shared) for x, y in zip(w, g))
+  if isinstance(w, list):
+    return (isinstance(g, list) and isinstance(w, pg.List) <= isinstance(g, pg.List) and len(w) == len(g)
+            and all(same_eff(w[i], g[i], shared) for i in range(len(w))))
+  if isinstance(w, dict):
+    return (isinstance(g, dict) and isinstance(w, pg.Dict) <= isinstance(g, pg.Dict)
+            and set(w.keys()) == set(g.keys()) and all(same_eff(w[k], g[k], shared) for k in w.keys()))
+  if isinstance(w, pg.Symbolic):
+    return type(g) is type(w) and pg.eq(w, g)
+  return same(w, g)
+
+
+def agree_eff(want, got, shared=()):
+  if want[0] == 'ok':
+    return got[0] == 'ok' and same_eff(want[1], got[1], shared)
+  return agree(want, got)
+
+
+def _tuple_leaves(v):
+  if isinstance(v, tuple):
+    for x in v:
+      yield from _tuple_leaves(x)
+  else:
+    yield v
+
+
+def _eff_outcome(want, got, shared):
+  if want[0] == 'ok' and got[0] == 'ok' and not same_eff(want[1], got[1], shared):
+    if any(isinstance(l, pg.symbolic.Inferential) for l in _tuple_leaves(got[1])):
+      return 'python-ok/got-the-stored-placeholder-instead-of-the-value'
+    if same_eff(want[1], got[1], ()):
+      return 'python-ok/got-a-copy-of-the-referenced-value'
+  return _vs(want, got)
+
+
+def _slot_name(s, slot):
+  how, at = slot
+  if how == 'k':
+    return at
+  return s.pos[at] if at < s.n else f'args[{at - s.n}]'
+
+
+def _slot_class(s, slot):
+  nm = _slot_name(s, slot)
+  return 'named' if nm in s.names else ('varargs-element' if nm.startswith('args[') else 'extra-keyword')
+
+
+def _indirect_shape(s, r, varargs):
+  """(a, k) of a call Python accepts; with elements of *args if `varargs`; with an extra keyword if **kw."""
+  p = s.n if varargs else r.randrange(s.n + 1)
+  a = tuple(10 + i for i in range(p)) + ((18, 19) if varargs else ())
+  k = {nm: 100 + t for t, nm in enumerate(s.names) if nm not in s.pos[:p]
+       and (nm not in s.defaults or r.random() < 0.6)}
+  if s.vk:
+    k['z'] = 130
+  return a, k
+
+
+def _indirect_plan(s, kind, r, thorough):
+  """[(a, k, slots, vname, alt)]: per call shape one case per slot class, then one with several slots."""
+  plan = []
+  is_cls = is_class_kind(kind)
+  shapes_ = [_indirect_shape(s, r, s.va and r.random() < 0.6) for _ in range(2 if thorough else 1)]
+  for a, k in shapes_:
+    slots = [('p', i) for i in range(len(a))] + [('k', nm) for nm in k]
+    by_class = {}
+    for sl in slots:
+      by_class.setdefault(_slot_class(s, sl), []).append(sl)
+
+    def vnames(chosen):
+      names = [v for v, d in INDIRECT_VALUES.items()
+               if not (d[0] == 'inferred-from-parent'
+                       and (is_cls or any(_slot_class(s, sl) == 'varargs-element' for sl in chosen)))]
+      return r.sample(names, 3) if thorough else [r.choice(names)]
+    todo = [[r.choice(v)] for _, v in sorted(by_class.items())]
+    if len(slots) >= 2:
+      todo.append(sorted(r.sample(slots, r.randrange(2, min(len(slots), 3) + 1))))
+    for chosen in todo:
+      for vname in vnames(chosen):
+        plan.append((a, k, tuple(chosen), vname, r.randrange(2)))
+  return plan
+
+
+def _indirect_snippets(s, kind, a, k, slots, vname, alt):
+  """[(mode, mode group, source)]; each source defines `want` and `got` (and T)."""
+  group, setup, sym, direct, _ = INDIRECT_VALUES[vname]
+  is_cls = is_class_kind(kind)
+  inferred = group == 'inferred-from-parent'
+  names = [_slot_name(s, sl) for sl in slots]
+  has_va = len(a) > s.n
+  va_slot = any(nm.startswith('args[') for nm in names)
+
+  def direct_of(nm):
+    return str(900 + names.index(nm)) if direct is _PARENT_VALUE else direct
+
+  def args_src(fill):
+    """Source of the argument list, the chosen slots written by fill(name)."""
+    aa = [repr(v) for v in a]
+    kk = {n: repr(v) for n, v in k.items()}
+    for (how, at), nm in zip(slots, names):
+      if how == 'p':
+        aa[at] = fill(nm)
+      else:
+        kk[at] = fill(nm)
+    return aa, kk
+
+  def join(aa, kk):
+    return ', '.join(list(aa) + [f'{n}={v}' for n, v in kk.items()])
+
+  def as_keywords(aa, kk):
+    return dict(list(zip(s.pos, aa)) + list(kk.items()))
+  sa, sk = args_src(lambda nm: sym)
+  da, dk = args_src(direct_of)
+  pa, pk = args_src(lambda nm: '555')
+  inv = (lambda x: f'{x}.r') if is_cls else (lambda x, late='': f'{x}({late})')
+  want = f'want = m.call(lambda: {inv("F(" + join(da, dk) + ")") if is_cls else "F(" + join(da, dk) + ")"})\n'
+  head = setup + '\n' + want
+  if inferred:
+    parent = ', '.join(f'{nm}={direct_of(nm)}' for nm in names)
+    make = lambda ctor: f'  H = pg.Dict({parent}, x={ctor}); x = H.x\n'
+    copy_of = lambda how: f'H.{how}.x'
+  else:
+    make = lambda ctor: f'  x = {ctor}\n'
+    copy_of = lambda how: f'x.{how}'
+
+  def snippet(ctor, ops='', result=None):
+    return (head + 'def run_():\n' + make(ctor) + ops + f'  return {result or inv("x")}\n'
+            + 'got = m.call(run_)\n')
+  out = [('bound-at-construction', 'bound', snippet(f'W({join(sa, sk)})'))]
+  # bound later: a whole-argument rebind / an attribute assignment / partial() + rebind().
+  sym_kw = {nm: sym for nm in names}
+  if not va_slot and not has_va and is_cls and alt:
+    rest = {n: v for n, v in as_keywords(pa, pk).items() if n not in names}
+    ops = f'  x.rebind({join((), sym_kw)})\n'
+    out.append(('partial+rebind', 'bound-later', snippet(f'W.partial({join((), rest)})', ops)))
+  elif len(names) == 1 and not va_slot and not is_cls and alt:
+    out.append(('attribute-assignment', 'bound-later',
+                snippet(f'W({join(pa, pk)})', f'  x.{names[0]} = {sym}\n')))
+  else:
+    paths = '{' + ', '.join(f'{nm!r}: {sym}' for nm in names) + '}'
+    out.append(('rebind', 'bound-later', snippet(f'W({join(pa, pk)})', f'  x.rebind({paths})\n')))
+  # the rest of the arguments supplied at call time.
+  if not is_cls and not va_slot and not has_va:
+    rest = {n: v for n, v in as_keywords(sa, sk).items() if n not in names}
+    if rest:
+      out.append(('rest-at-call-time', 'bound',
+                  snippet(f'W({join((), sym_kw)})', result=inv('x', join((), rest)))))
+  # copies.
+  ctor = f'W({join(sa, sk)})'
+  copies = [('clone', 'clone()'), ('deep-clone', 'clone(deep=True)')]
+  for mode, how in copies[alt:alt + 1]:
+    out.append((mode, 'copy', snippet(ctor, result=inv(copy_of(how)))))
+  if group == 'symbolic-value':
+    out.append(('json-roundtrip', 'copy', snippet(ctor, result=inv('pg.from_json(x.to_json())'))))
+  # what the symbolic object reports.
+  reads, wants = [], []
+  for nm in names:
+    if nm.startswith('args['):
+      reads.append(f"(x.sym_init_args['args']{nm[4:]}, x.sym_inferred('args'){nm[4:]})")
+    else:
+      reads.append(f'(x.sym_init_args[{nm!r}], x.sym_inferred({nm!r}))')
+    wants.append(f'({direct_of(nm)}, {direct_of(nm)})')
+  rep = (setup + "\nwant = ('ok', (" + ', '.join(wants) + ',))\n'
+         + 'def run_():\n' + make(ctor) + '  return (' + ', '.join(reads) + ',)\ngot = m.call(run_)\n')
+  out.append(('reported', 'reported', rep))
+  return out
+
+
+def _wrong_slot_classes(s, want, got, shared):
+  """Slot classes of the arguments that differ in a result `("r", *named, args, *kwonly, kw)`; None if unknown."""
+  n_items = 1 + s.n + (1 if s.va else 0) + len(s.kwonly) + (1 if s.vk else 0)
+  if not (want[0] == got[0] == 'ok' and isinstance(got[1], tuple) and isinstance(want[1], tuple)
+          and len(want[1]) == len(got[1]) == n_items):
+    return None
+  labels = ['-'] + ['named'] * s.n + (['varargs-element'] if s.va else []) + ['named'] * len(s.kwonly) \
+      + (['extra-keyword'] if s.vk else [])
+  wrong = {lb for lb, x, y in zip(labels, want[1], got[1]) if not same_eff(x, y, shared)}
+  return sorted(wrong) if wrong and '-' not in wrong else None
+
+
+def _indirect_cases(rec, s, kind, f, w, prelude, plan):
+  fam = 'class-wrapper' if is_class_kind(kind) else 'functor'
+  me = sys.modules[__name__]
+  for a, k, slots, vname, alt in plan:
+    group, _, _, _, ident = INDIRECT_VALUES[vname]
+    classes = sorted({_slot_class(s, sl) for sl in slots})
+    call_failed = False
+    for mode, mgroup, source in _indirect_snippets(s, kind, a, k, slots, vname, alt):
+      if call_failed and mgroup != 'reported':
+        continue          # a later binding / a copy of a call that is already wrong says nothing new
+      env = {'pg': pg, 'm': me, 'F': f, 'W': w}
+      try:
+        exec(source, env)  # pylint: disable=exec-used
+        want, got = env['want'], env['got']
+      except Exception as e:  # pylint: disable=broad-except
+        want, got = ('ok', None), ('exc', f'{type(e).__name__} outside the call')
+      shared = [env['T']] if ident and 'T' in env else []
+      ok = agree_eff(want, got, shared)
+      tag, message = '+'.join(classes), ''
+      if not ok:
+        if mgroup != 'reported':
+          call_failed = True
+          tag = '+'.join(_wrong_slot_classes(s, want, got, shared) or classes)
+        message = (f'{s.params}; {vname} in {[_slot_name(s, sl) for sl in slots]} ({mode}): '
+                   f'got {got!r}; the original called with the effective arguments: {want!r}')
+      rec.case(f'{fam}.argument-bound-as-{group}/{mgroup}[{tag}]/{_eff_outcome(want, got, shared)}',
+               (s.id, kind, vname, mode, a, tuple(k), slots), ok=ok, message=message,
+               witness=_witness(prelude, 'import bounded.c18_functor as m\n' + source
+                                + f'assert m.agree_eff(want, got, {"[T]" if ident else "[]"}), got\n'))
+
+
+def drv_indirect_argument_values(tier, seed):
+  quick = tier == 'quick'
+  rec = Recorder(
+      'C18', 'arguments bound as references / inferred from the parent / symbolic values: the callable sees the effective value',
+      scope=('240 signatures x one way of symbolizing a function (pg.functor, pg.symbolize, functor_class, '
+             '2 untyped subclassed styles, pg.functor with int-or-symbolic value specs) and one way of '
+             'wrapping a class (pg.wrap, pg.symbolize, pg.wrap with value specs, a subclass of the '
+             'pg.wrap class whose own __init__ forwards to super()), rotated by seed ('
+             + ('per signature one of the two families, seeded' if quick else 'two of each per signature') + '); '
+             + ('1 seeded call shape' if quick else '2 seeded call shapes') + ' Python accepts (0..n '
+             'positionals, elements of *args, keywords, an extra keyword for **kw); per shape one argument '
+             'of every slot class (named / element of *args / entry of **kw) and one seeded set of 2..3 '
+             f'slots written as one of {len(INDIRECT_VALUES)} indirect values ('
+             + ('1 seeded' if quick else '3 seeded') + ' per slot set): pg.Ref of pg.Dict / pg.List / '
+             'pg.Object / a node owned by another tree / a functor object / a plain dict / a plain list, a dict or list holding a '
+             'pg.Ref, a pg.Dict / pg.Object value without and with a parent, ValueFromParentChain '
+             '(functors inside a pg.Dict, not for *args); bound at construction, later (rebind of the '
+             'whole argument, attribute assignment, partial + rebind), with the rest supplied at call '
+             'time, on clone / deep clone (JSON copy for symbolic values); oracle: the original called '
+             'with the effective values (the referenced object itself; the parent value; an equal '
+             'symbolic value); also what sym_init_args / sym_inferred report'))
+  r = rng(seed, 'c18-indirect')
+  for i, sig in enumerate(all_sigs()):
+    if not (sig.names or sig.va or sig.vk):
+      continue
+    fkinds = [pick_kind(i, seed, sig, kinds=IND_FN_KINDS)]
+    ckinds = [IND_CLS_KINDS[(i + i // len(IND_CLS_KINDS) + seed) % len(IND_CLS_KINDS)]]
+    if quick:
+      if r.randrange(2):
+        fkinds = []
+      else:
+        ckinds = []
+    else:
+      fkinds.append(pick_kind(i, seed, sig, shift=3, kinds=IND_FN_KINDS))
+      ckinds.append(IND_CLS_KINDS[(i + i // len(IND_CLS_KINDS) + seed + 2) % len(IND_CLS_KINDS)])
+    for kind in fkinds:
+      plan = _indirect_plan(sig, kind, r, not quick)
+      run_routine(rec, sig, kind, lambda rc, s_, kind_, f, w, prelude, plan=plan:
+                  _indirect_cases(rc, s_, kind_, f, w, prelude, plan))
+    for kind in ckinds:
+      built = try_build(rec, sig, kind)
+      if built is not None:
+        _indirect_cases(rec, sig, kind, *built, _indirect_plan(sig, kind, r, not quick))
+  return rec.result()
+
+
 DRIVERS = [drv_functor_single_stage, drv_functor_two_stage, drv_functor_late_binding,
            drv_class_wrappers, drv_functor_values_and_reentrancy, drv_keyword_names,
-           drv_callables_sharing_code]
+           drv_callables_sharing_code, drv_indirect_argument_values]
 
 
 def replay(rec):
